@@ -1443,7 +1443,10 @@ func (ctx *RenderContext) getAttribute(obj interface{}, attr string) (interface{
 		}
 
 		if method.IsValid() {
-			results := method.Call(nil)
+			results, err := callMethod(method, attr)
+			if err != nil {
+				return nil, err
+			}
 			if len(results) > 0 {
 				return results[0].Interface(), nil
 			}
@@ -1453,6 +1456,17 @@ func (ctx *RenderContext) getAttribute(obj interface{}, attr string) (interface{
 
 	// Instead of returning an error for attributes not found, just return nil
 	return nil, nil
+}
+
+// callMethod calls a method without arguments. A method promoted from an embedded nil pointer
+// (or one that panics itself) yields an error instead of taking the renderer down.
+func callMethod(method reflect.Value, name string) (results []reflect.Value, err error) {
+	defer func() {
+		if r := recover(); r != nil {
+			err = fmt.Errorf("error calling method '%s': %v", name, r)
+		}
+	}()
+	return method.Call(nil), nil
 }
 
 // evaluateBinaryOp evaluates a binary operation
